@@ -68,7 +68,7 @@ theorem C05_bitmap_in_bounds (T : Tables) (edition s4max fuel : Nat) (ddo : DDO)
   decodeSubsetLoopB_WF T edition s4max fuel ddo {} st done todo st' out fin bm' (by simp [BM.WF]) h
 
 /-- the same, step by step: whatever node comes next -/
-theorem C05_bitmap_step (T : Tables) (edition : Nat) (bsq : List Node) (ddo : DDO) (bm : BM) (n : Node) (h : bm.WF) :
+theorem C05_bitmap_step (T : Tables) (edition : Nat) (bsq : Unit → List Node) (ddo : DDO) (bm : BM) (n : Node) (h : bm.WF) :
     (applyTables2nodeB T edition bsq ddo bm n).2.1.WF :=
   applyTables2nodeB_WF T edition bsq ddo bm n h
 
